@@ -15,7 +15,7 @@ PLAN = {
     "C09": dict(
         engine="modelx", technique="explicit-state BFS over model histories x beta grid on the real pipeline; dense Gibbs-state traces as oracle",
         level_text="every model state (incl. +-1e3 level offsets) x beta in {1e-3,0.5,5,40,1e3} x all index pairs: weights, normalisation, ratios, and every average accessor compared with Tr(rho O) on the full Fock space",
-        runs=[("san", "hx", "C09", 16, [])], thorough_extra=[("cplx", "hx", "C09", 16, [])],
+        runs=[("san", "hx", "C09", 16, []), ("cplx", "hx", "C09", 16, [])],
         rule="BFS over generator histories incl. offset generators x 5 inverse temperatures x partitions {default, ignored}"),
     "C10": dict(
         engine="modelx", technique="explicit-state BFS over model histories x partitions; stored sparse operators rotated back with the stored eigenvectors and compared with Jordan-Wigner matrices",
@@ -30,7 +30,7 @@ PLAN = {
     "C11": dict(
         engine="modelx", technique="explicit-state BFS over model histories x beta x (i,j) x z grid x tau grid; identities + dense G(tau) reference",
         level_text="every model state x beta in {0.5,5,40,1e3} x all (i,j): Hermitian symmetry at on- and off-axis z, 1/z tail at |z|=1e6, sign of Im G_ii, of_tau against the dense definition at 5 tau points incl. both ends, jump and occupancy relations",
-        runs=[("san", "hx", "C11", 16, [])], thorough_extra=[("cplx", "hx", "C11", 16, [])],
+        runs=[("san", "hx", "C11", 16, []), ("cplx", "hx", "C11", 16, [])],
         rule="BFS over generator histories x betas x all index pairs x 13 z points x 5 tau points"),
     "C20": dict(
         engine="histx", technique="explicit-state BFS over addSite/addTerm/preset call histories on a real Lattice against a map/list reference model; invariants evaluated in every state",
